@@ -217,7 +217,7 @@ def main():
         progs.append(D.gen_machine_case(rng))
     for f, prog, exp, bud in U.conformance_terms("v3", 150 if quick else None):
         progs.append(prog[1])
-    first = [{"id": i, "op": "eval", "term": t, "lang": ("v3", "v2", "v1")[i % 3], "pv": 8 + (i % 4), "budget": U.BIG_BUDGET} for i, t in enumerate(progs)]
+    first = [{"id": i, "op": "eval", "term": t, "lang": ("v3", "v2", "v1")[i % 3], "pv": 8 + (i % 4), "budget": U.MACHINE_BUDGET} for i, t in enumerate(progs)]  # finite: random machine terms may diverge
     r1 = common.run_jobs("uplc-run", first, per_job_timeout=120)
     jobs = []
     exp = {}
